@@ -123,6 +123,7 @@ func emit(c *hx.Ctx, name string, proto api.XProtocol, input []byte, id uint64, 
 	c.Emit("C01", fmt.Sprintf("%s %d %s %s", name, id, opsTok(ops), hx.Hex(input)), fmt.Sprintf("%s %s %s", dec, enc, hx.Hex(out)))
 	c.Count(name + ".dec=" + strings.SplitN(dec, ":", 2)[0])
 	c.Count(name + ".enc=" + enc)
+	maybeReencm(c, proto, name, "", input, ops, dec)
 }
 
 // boundary lengths named by the property
@@ -169,7 +170,7 @@ func Run(c *hx.Ctx) {
 	for _, p := range []struct {
 		name string
 		run  func(*hx.Ctx)
-	}{{"bolt", runBolt}, {"boltlocal", runBoltLocal}, {"dubbo", runDubbo}, {"thrift", runThrift}, {"tars", runTars}, {"uri", runURI}, {"http1", runHTTP1}, {"http2", runHTTP2}, {"relay", runRelay}, {"reenc", runReenc}, {"http1m", runHTTP1Method}, {"http1f", runHTTP1Framing}, {"relayup", runRelayFirst}} {
+	}{{"bolt", runBolt}, {"boltlocal", runBoltLocal}, {"dubbo", runDubbo}, {"thrift", runThrift}, {"tars", runTars}, {"uri", runURI}, {"http1", runHTTP1}, {"http2", runHTTP2}, {"relay", runRelay}, {"reenc", runReenc}, {"http1m", runHTTP1Method}, {"http1f", runHTTP1Framing}, {"relayup", runRelayFirst}, {"reencs", runReencStream}} {
 		if only == "" || only == p.name {
 			p.run(c)
 		}
